@@ -374,6 +374,31 @@ pub fn check_alist(c: &AlistCase) -> CaseResult {
             let _ = l.get(i);
             let _ = &l[i];
         }
+        // the same entries held by a non-list are not an association list:
+        // a vector of them, a byte vector, a string spelled like a key
+        if !entries.is_empty() {
+            let others = [MV::Vec(entries.clone()), MV::Vec(vec![MV::list(entries.clone())]), MV::Str(c.names[0].clone()), MV::Sym(c.names[0].clone()), MV::Bytes(c.names[0].as_bytes().to_vec())];
+            for o in &others {
+                let ov = o.to_value();
+                for name in &c.names {
+                    if ov.get(name.as_str()).is_some() || !ov[name.as_str()].is_nil() || ov.get(name.clone()).is_some() {
+                        return Err((
+                            format!("op=index-name target={}-of-entries", o.kind()),
+                            format!("lookup of {:?} in the non-list {} gave {}", name, short(o), short(&ov.get(name.as_str()).map(MV::from_value))),
+                        ));
+                    }
+                }
+                for key in &c.keys {
+                    let kv = key.to_value();
+                    if ov.get(&kv).is_some() || !ov[&kv].is_nil() {
+                        return Err((
+                            format!("op=index-value target={}-of-entries", o.kind()),
+                            format!("lookup of key {} in the non-list {} gave {}", short(key), short(o), short(&ov.get(&kv).map(MV::from_value))),
+                        ));
+                    }
+                }
+            }
+        }
         Ok(())
     });
     match r {
